@@ -72,11 +72,49 @@ func (z *Decimal) Sqrt(x *Decimal) *Decimal {
 	// Unlike with big.Float, solving x² - z = 0 directly is faster only for
 	// very small precisions (<_DW/2).
 	//
-	// Solve 1/x² - z = 0 instead.
-	z.sqrtInverse(z)
+	// Solve 1/x² - z = 0 instead, with two guard digits and truncation.
+	x0 := new(Decimal).Copy(z)
+	z.prec, z.mode = prec+2, ToZero
+	z.sqrtInverse(x0)
 
-	// restore precision and re-attach halved exponent
-	return z.SetMantExp(z, b/2)
+	// The approximation may be off by a few units in the last place, which
+	// is enough to end up on the wrong side of a rounding boundary. Make z
+	// the largest value with prec+2 digits such that z² <= x0 and round that
+	// (plus a sticky digit if z² != x0) to the requested precision.
+	z.sqrtRound(x0, prec, mode)
+
+	// re-attach halved exponent (exact, keep the accuracy of the rounding)
+	acc := z.acc
+	z.SetMantExp(z, b/2)
+	z.acc = acc
+	return z
+}
+
+// sqrtRound sets z to √x rounded to precision prec according to mode, given an
+// approximation z of √x with prec+2 digits that is off by a few units in the
+// last place at most.
+func (z *Decimal) sqrtRound(x *Decimal, prec uint32, mode RoundingMode) {
+	ulp := NewDecimal(1, int(z.exp)-int(z.prec))
+	half := NewDecimal(5, int(z.exp)-int(z.prec)-1)
+	z.prec++ // room to step over a power of ten in units of ulp
+	sq := new(Decimal).SetPrec(2*uint(z.prec) + 2) // holds squares exactly
+	t := new(Decimal).SetPrec(uint(z.prec) + 1)
+	// all additions and subtractions below are exact
+	for sq.Mul(z, z).Cmp(x) > 0 {
+		z.Sub(z, ulp)
+	}
+	for sq.Mul(t.Add(z, ulp), t).Cmp(x) <= 0 {
+		z.Set(t)
+	}
+	// z <= √x < z + ulp
+	if sq.Mul(z, z).Cmp(x) != 0 {
+		// z < √x < z + ulp and there is no rounding boundary in between:
+		// z + ulp/2 rounds like √x
+		z.prec += 2
+		z.Add(z, half)
+	}
+	z.mode = mode
+	z.SetPrec(uint(prec))
 }
 
 // Compute √x (to z.prec precision) by solving
@@ -129,7 +167,7 @@ func (z *Decimal) sqrtInverse(x *Decimal) {
 	// t = 1/√x
 
 	// x/√x = √x
-	z.Mul(z, t)
+	z.Mul(x, t)
 }
 
 // newDecimal returns a new *Decimal with space for twice the given
